@@ -268,8 +268,9 @@ func vanishHistories() []vanishCase {
 }
 
 type vanishInst struct {
-	h   int
-	cut int
+	h           int
+	cut         int
+	unreachable bool // from the silence on every gateway->client write fails (the vanished client's address is unreachable)
 }
 
 func vanishInsts() []vanishInst {
@@ -279,7 +280,10 @@ func vanishInsts() []vanishInst {
 			if cut < len(h.steps) && (h.steps[cut].Kind == "advance" || h.steps[cut].Kind == "pub" || (cut > 0 && h.steps[cut-1].Kind == "fail-sends")) {
 				continue // silence begins after a client packet (or at the very start)
 			}
-			out = append(out, vanishInst{hi, cut})
+			out = append(out, vanishInst{hi, cut, false})
+			if h.name == "active" || strings.HasSuffix(h.name, "-then-active") || h.name == "connecting-will" {
+				out = append(out, vanishInst{hi, cut, true})
+			}
 		}
 	}
 	return out
@@ -293,6 +297,9 @@ var wlVanish = Workload{
 		h := vanishHistories()[in.h]
 		steps := append([]Step{}, h.steps[:in.cut]...)
 		steps = append(steps, Step{Kind: "note", Cause: "client-silent-from-here"})
+		if in.unreachable {
+			steps = append(steps, Step{Kind: "fail-sends", D: 1})
+		}
 		// long enough for the largest bound of this history: longest announced sleep + 1.5 KA, and then some
 		maxD := uint16(0)
 		for _, st := range steps {
@@ -302,7 +309,7 @@ var wlVanish = Workload{
 		}
 		steps = append(steps, advStep(time.Duration(maxD)*time.Second+time.Duration(h.ka)*4*time.Second+120*time.Second))
 		g := runScript(t, c, world.GWConfig{Predefined: stdPredefined(), RetryCount: 2, RetryDelay: 10 * time.Second}, world.BrokerCfg{FirstID: 30000, EnforceKA: true}, PeerOpts{NoWillReply: true}, steps, 0, nil)
-		g.Desc = fmt.Sprintf("%s/ka=%d/cut=%d", h.name, h.ka, in.cut)
+		g.Desc = fmt.Sprintf("%s/ka=%d/cut=%d/unreachable=%v", h.name, h.ka, in.cut, in.unreachable)
 		g.Extra = map[string]interface{}{"ka": h.ka}
 		return g
 	},
@@ -389,6 +396,7 @@ func judgeC34(g *GWRun) (vs []monitors.V, checked int) {
 func TestC34(t *testing.T) {
 	r := rt.Start(t, "C34")
 	r.DeadlockIsViolation = true // a session stuck on a mutex for ever is a half-open session
+	leakIsViolation = "C34"      // so is a session whose goroutines are still there after the world was shut down
 	runWorkloads(t, r, []Workload{wlVanish}, func(g *GWRun) ([]monitors.V, int) { return judgeC34(g) })
-	r.Finish(fmt.Sprintf("all %d cases: base histories (active with forwarded and non-forwarded traffic; one sleep of KA/2, KA, 3KA, 65535 s; multi-cycle sleeps with decreasing durations such as 20KA then KA, 65535 then 2KA, each also followed by a return to active; a half-open CONNECT with will; a sleeping client with buffered messages whose wake-up flush runs into a send error) for keep-alive 1, 10 and 60 s, with the client falling silent forever after every client packet (and at the very start); the simulated broker enforces keep-alive (closes after 1.5 x KA without a packet, and after 10 s without CONNECT). Each case is observed for its longest announced sleep + 4 KA + 120 virtual seconds (up to ~66000 s). Oracle: the handler returns by last-client-packet + {5 s connect timeout | 1.5 KA (active/awake) | latest announced sleep duration + 1.5 KA (asleep)} + 100 ms. exhaustive for the stated case list.", len(vanishInsts())), nil)
+	r.Finish(fmt.Sprintf("all %d cases: base histories (active with forwarded and non-forwarded traffic; one sleep of KA/2, KA, 3KA, 65535 s; multi-cycle sleeps with decreasing durations such as 20KA then KA, 65535 then 2KA, each also followed by a return to active; a half-open CONNECT with will; a sleeping client with buffered messages whose wake-up flush runs into a send error) for keep-alive 1, 10 and 60 s, with the client falling silent forever after every client packet (and at the very start), for the active / connecting histories also as 'silent and unreachable' (every later gateway->client write fails); the simulated broker enforces keep-alive (closes after 1.5 x KA without a packet, and after 10 s without CONNECT). Each case is observed for its longest announced sleep + 4 KA + 120 virtual seconds (up to ~66000 s). Oracle: the handler returns by last-client-packet + {5 s connect timeout | 1.5 KA (active/awake) | latest announced sleep duration + 1.5 KA (asleep)} + 100 ms. exhaustive for the stated case list.", len(vanishInsts())), nil)
 }
